@@ -65,6 +65,9 @@ func (s *Space) label() string {
 	if s.ReverseWays {
 		l += "/reversing-child-ways"
 	}
+	if s.Blink {
+		l += "/delete-and-undelete-in-one-upload"
+	}
 	if s.Strip {
 		l += "/partial-commit-times"
 	}
